@@ -2527,7 +2527,10 @@ class DataFrame(FrameBase):
 
     @property
     def shape(self):
-        return self.size / max(len(self.columns), 1), len(self.columns)
+        if len(self.columns) == 0:
+            # no cells, but the rows are still there
+            return self.index.size, 0
+        return self.size / len(self.columns), len(self.columns)
 
     @property
     def ndim(self):
